@@ -239,9 +239,32 @@ def _impl_frames3(case):
     return res
 
 
+def _impl_tabq(case):
+    """a wavelength axis read from a look-up table of QUANTITIES behind a unit-free shift: the transform's parameters carry no
+    units (uses_quantity is False) but its results are quantities; the twin's table holds the same numbers in the frame's unit"""
+    tu, wu = u.Unit(case["tunit"]), u.Unit(case["wunit"])
+    vals = np.array(case["table"], dtype=float)
+    det = cf.CoordinateFrame(1, ("SPATIAL",), (0,), unit=(u.pix,), name="detector")
+    res = {}
+    for nm, tab in (("q", models.Tabular1D(points=np.arange(len(vals), dtype=float), lookup_table=vals * tu, bounds_error=False, fill_value=None)),
+                    ("t", models.Tabular1D(points=np.arange(len(vals), dtype=float), lookup_table=(vals * tu).to_value(wu), bounds_error=False, fill_value=None))):
+        w = gw.WCS([(det, models.Shift(0.0) | tab), (cf.SpectralFrame(unit=wu, name="world"), None)])
+        pix = np.array(case["pix"]) if case["array"] else case["pix"][0]
+        r = {"p2wv": _try(lambda: _vals(w.pixel_to_world_values(pix))),
+             "ai2wv": _try(lambda: _vals(w.array_index_to_world_values(np.asarray(np.floor(np.asarray(pix) + 0.5), dtype=int)))),
+             "p2w": _try(lambda: {"kinds": [type(w.pixel_to_world(pix)).__name__], "v": [np.asarray(w.pixel_to_world(pix).to_value(wu)).tolist()]})}
+        if "err" not in r["p2wv"]:
+            world = np.array(r["p2wv"]["v"][0]) if case["array"] else float(np.asarray(r["p2wv"]["v"][0]))
+            r["w2pv"] = _try(lambda: _vals(w.world_to_pixel_values(world)))
+        res[nm] = r
+    return res
+
+
 def impl(case):
     if case["family"] == "frames3":
         return _impl_frames3(case)
+    if case["family"] == "tabq":
+        return _impl_tabq(case)
     wq = _build(case, True)
     wt = _build(case, False)
     pix = [np.array(p) if case["array"] else p[0] for p in case["pix"]]
@@ -355,6 +378,21 @@ def oracle(case, res):
                 out.append(("transform", "WCS.transform %s: bare numbers in the frame's unit give %s, the same point as quantities in %s gives %s" %
                             (what, ra["v"], case["alt"], rb["v"])))
         return out
+    if case["family"] == "tabq":
+        for op in ("p2wv", "ai2wv", "p2w", "w2pv"):
+            rq, rt = res["q"].get(op), res["t"].get(op)
+            if rq is None or rt is None:
+                continue
+            if "err" in rt:
+                out.append(("values", "%s failed on the unit-free look-up table WCS: %s" % (op, rt["msg"])))
+            elif "err" in rq:
+                # the way back through a table of quantities is finding D70; the way forward must work
+                out.append(("D70" if op == "w2pv" else "values", "%s failed on the WCS whose look-up table holds quantities (%s, frame in %s): %s" %
+                            (op, case["tunit"], case["wunit"], rq["msg"])))
+            elif "Quantity" in rq.get("kinds", []) or not all(_close(a, b) for a, b in zip(rq["v"], rt["v"])):
+                out.append(("values", "%s on the WCS whose look-up table holds quantities (%s, frame in %s) returns %s %s %s, its unit-free twin %s" %
+                            (op, case["tunit"], case["wunit"], rq.get("kinds"), rq["v"], rq.get("units", ""), rt["v"])))
+        return out
     q, t = res["q"], res["t"]
     n = len(case["axes"])
     for nm in ("q", "t"):
@@ -460,7 +498,7 @@ def _model_axes(case, twin):
 
 
 def request(case, res):
-    if case["family"] == "frames3":
+    if case["family"] in ("frames3", "tabq"):
         return None
     if case["family"] == "tan" or case["array"] or "err" in res["q"]["p2wv"] or case.get("pixu"):
         return None
@@ -533,6 +571,8 @@ def compare(case, res, resp):
 
 
 def nontrivial(case, res):
+    if case["family"] == "tabq":
+        return case["tunit"] != case["wunit"]
     if case["family"] == "frames3":
         return case["alt"] != "arcsec"
     return any(len({a["tout"], a["world"], a["alt"]}) > 1 for a in case["axes"])
@@ -540,7 +580,7 @@ def nontrivial(case, res):
 
 def stats(case, res, st):
     st["family_" + case["family"]] += 1
-    if case["family"] == "frames3":
+    if case["family"] in ("frames3", "tabq"):
         return
     if case.get("mixed"):
         st["mixed_user_inverse"] += 1
@@ -583,6 +623,12 @@ def gen(rng, tier):
                                           float(rng.randint(10, 300)), float(rng.randint(-60, 60))],
                "focal": [rng.randint(-200, 200) / 4.0, rng.randint(-200, 200) / 4.0], "alt": rng.choice(["arcsec", "arcmin", "deg", "rad"])}
     yield from _gen_main(rng, tier)
+    for _ in range(6 if tier == "quick" else 120):
+        n = rng.randint(4, 9)
+        start = float(rng.randint(400, 900))
+        arr = rng.random() < 0.5
+        yield {"family": "tabq", "tunit": rng.choice(["nm", "um", "AA"]), "wunit": rng.choice(["nm", "um", "AA", "m"]), "array": arr,
+               "table": [start + 10.0 * i + (i * i) / 4.0 for i in range(n)], "pix": [rng.randint(0, 4 * (n - 1)) / 4.0 for _i in range(3 if arr else 1)]}
 
 
 def _gen_main(rng, tier):
